@@ -206,6 +206,14 @@ class _Ctx:
                     inner = [o for o in st['jax'].tree.leaves(red, is_leaf=lambda o: isinstance(o, InverseOperator))
                              if isinstance(o, InverseOperator)]        # wherever the reduced expression keeps it
                     out['cap_red'] = _project(inner[0].config) if len(inner) == 1 else {'solver': 99, 'throw': 99, 'cb': 99}
+                    # a view of the inverse taken NOW (its transpose): whatever object that is, the lazy inverse inside it
+                    # still holds the configuration captured at creation
+                    try:
+                        tv = [o for o in st['jax'].tree.leaves(inv.T, is_leaf=lambda o: isinstance(o, InverseOperator))
+                              if isinstance(o, InverseOperator)]
+                        out['cap_T'] = _project(tv[0].config) if len(tv) == 1 else {'solver': 99, 'throw': 99, 'cb': 99}
+                    except Exception:
+                        out['cap_T'] = out['cap']          # a refused view says nothing
                     del st['fired'][:]
                     with contextlib.redirect_stdout(io.StringIO()):
                         z = red(st['jnp'].array([1.0, 2.0], dtype=st['jnp'].float32))
@@ -291,6 +299,7 @@ class _Driver:
         out['raised'] = res.get('raised', -1)
         out['cap_red'] = res.get('cap_red', {'solver': -1, 'throw': -1, 'cb': -1})
         out['fired_red'] = res.get('fired_red', -1)
+        out['cap_T'] = res.get('cap_T', {'solver': -1, 'throw': -1, 'cb': -1})
         out['vals'] = self.observe()
         return out
 
